@@ -30,12 +30,23 @@ type stats struct {
 	nsByEntry                                                    map[string]int64
 	byStateSize                                                  map[string]int
 	samples                                                      []string
+
+	// built-in strategy family (states with a small coin)
+	randomRequests, randomOK, largestFamilyRequests int
+	randomInputs, smallCoinStorePos, smallYield     map[string]int
+	randomOrders                                    map[string]bool            // input orders observed (coin indexes)
+	randomStateOrders                               map[string]bool            // state|order
+	randomGroups                                    map[string]map[string]bool // state+request (without repetition number) -> input orders
+	randomGroupMax                                  map[string]int             // ... -> largest number of inputs of a result
+	randomSamples                                   []string
 }
 
 func newStats() *stats {
 	return &stats{byEntry: map[string]int{}, byEntryOK: map[string]int{}, byStatus: map[string]int{},
 		byReason: map[string]int{}, sigByType: map[string]int{}, failKinds: map[string]int{},
-		byStateSize: map[string]int{}, msByEntry: map[string]int{}, nsByEntry: map[string]int64{}}
+		byStateSize: map[string]int{}, msByEntry: map[string]int{}, nsByEntry: map[string]int64{},
+		randomInputs: map[string]int{}, smallCoinStorePos: map[string]int{}, smallYield: map[string]int{},
+		randomOrders: map[string]bool{}, randomStateOrders: map[string]bool{}, randomGroups: map[string]map[string]bool{}, randomGroupMax: map[string]int{}}
 }
 
 // bounds describes what a tier enumerates.
@@ -43,6 +54,7 @@ type bounds struct {
 	singles  []CoinSpec   // 1-coin states
 	pairs    [][]CoinSpec // 2-coin states
 	triples  [][]CoinSpec // 3-coin states
+	dust     [][]CoinSpec // built-in strategy family: states holding a small coin
 	feeExtra []int64      // additional fee rates for the CreateSimpleTx coin-selection slice
 	desc     string
 }
@@ -98,25 +110,94 @@ func makeBounds(thorough bool) *bounds {
 			fs = append(fs, "("+reduced[f[0]].String()+", "+reduced[f[1]].String()+")")
 		}
 		b.feeExtra = []int64{3000}
-		b.desc = "states: every 1-coin state (4 address types x 2 accounts x 11 statuses = 88), every unordered pair of those 88 coins with at least one coin on account 0 (2926; pairs with both coins on account 1 mirror the account-0 pairs), and 3-coin states {a,b,c} with a over the 44 account-0 coins and (b,c) over " + strings.Join(fs, ", ") + " (132); additional fee rate 3000 sat/kvB for signed CreateSimpleTx coin selection"
+		b.dust = dustFamily(true)
+		b.desc = fmt.Sprintf("states: every 1-coin state (4 address types x 2 accounts x %d statuses = %d), every unordered pair of those %d coins with at least one coin on account 0 (%d; pairs with both coins on account 1 mirror the account-0 pairs), and 3-coin states {a,b,c} with a over the %d account-0 coins and (b,c) over %s (%d); additional fee rate 3000 sat/kvB for signed CreateSimpleTx coin selection; %s",
+			numStatus, len(all), len(all), len(b.pairs), len(acct0), strings.Join(fs, ", "), len(b.triples), dustDesc(true, len(b.dust)))
 	} else {
 		for _, a := range acct0 {
 			for _, r := range reduced {
 				b.pairs = append(b.pairs, []CoinSpec{a, r})
 			}
 		}
-		b.desc = "states: every 1-coin state (4 address types x 2 accounts x 11 statuses = 88) and 2-coin states {a,b} with a over the 44 account-0 coins (4 types x 11 statuses) and b over " + R + " (264)"
+		b.dust = dustFamily(false)
+		b.desc = fmt.Sprintf("states: every 1-coin state (4 address types x 2 accounts x %d statuses = %d) and 2-coin states {a,b} with a over the %d account-0 coins (4 types x %d statuses) and b over %s (%d); %s",
+			numStatus, len(all), len(acct0), numStatus, R, len(b.pairs), dustDesc(false, len(b.dust)))
 	}
 	return b
 }
 
-const requestRule = "coin i of a state receives (i+1)*1000000+100000 sat; statuses: unconfirmed, 1 conf, 3 confs, coinbase with maturity-1 confs, coinbase with exactly maturity confs, spent by an unconfirmed / by a confirmed foreign tx (receipt 3 confs), confirmed then disconnected, LockOutpoint, LeaseOutput 24h, LeaseOutput with expiry in the past (3 confs each). " +
+// randomReps is how often every request with wallet.CoinSelectionRandom is
+// repeated. The strategy arranges the coins with rand.Shuffle: the harness
+// cannot choose the arrangement, it can only repeat the call. With at most 3
+// arranged coins a given one of the <= 6 arrangements is missed by 40 calls with
+// probability (5/6)^40 < 0.0007. The oracle does not depend on the order, so
+// the repetition can never alarm falsely; it is repetition of a randomised
+// implementation choice, NOT enumeration, and the evidence says so.
+const randomReps = 40
+
+// feeRatesFamily: at 1000 sat/kvB the small coin (400 sat) yields positively
+// for every address type, at 5000 only as P2WKH / P2TR, at 10000 for none.
+var feeRatesFamily = []int64{1000, 5000, 10000}
+
+// dustFamily returns the states of the built-in strategy family.
+func dustFamily(thorough bool) [][]CoinSpec {
+	var out [][]CoinSpec
+	for t := 0; t < 4; t++ {
+		pairs := [][2]int{{(t + 1) % 4, (t + 2) % 4}}
+		if thorough {
+			pairs = nil
+			for a := 0; a < 4; a++ {
+				for b := a; b < 4; b++ {
+					pairs = append(pairs, [2]int{a, b})
+				}
+			}
+		}
+		for _, ab := range pairs {
+			for p := 0; p < 3; p++ {
+				S := CoinSpec{Type: t, Status: stDeep, Small: true}
+				rest := []CoinSpec{{Type: ab[0], Status: stDeep}, {Type: ab[1], Status: stConf1}}
+				var sp []CoinSpec
+				sp = append(sp, rest[:p]...)
+				sp = append(sp, S)
+				sp = append(sp, rest[p:]...)
+				out = append(out, sp)
+			}
+		}
+	}
+	for t := 0; t < 4; t++ {
+		X := []CoinSpec{
+			{Type: (t + 1) % 4, Status: stLocked},
+			{Type: (t + 3) % 4, Status: stSpentUnconfirmed},
+			{Type: (t + 1) % 4, Status: stLeased, Small: true},
+			{Type: (t + 3) % 4, Status: stSpenderFirstConf},
+		}[t]
+		out = append(out, []CoinSpec{
+			{Type: t, Status: stDeep, Small: true},
+			{Type: t, Status: stConf1},
+			{Type: (t + 2) % 4, Status: stUnconfirmed},
+			X,
+		})
+	}
+	return out
+}
+
+func dustDesc(thorough bool, n int) string {
+	ab := "of types t+1 (3 confs) and t+2 (1 conf)"
+	if thorough {
+		ab = "over every unordered pair of types (3 confs, 1 conf)"
+	}
+	return fmt.Sprintf("built-in strategy family (%d states, account 0): 3-coin states {S,A,B} with a small coin S of %d sat (3 confs) of each type t at each of the 3 positions next to two ordinary coins A, B %s, and for each t one 4-coin state [S(t), ordinary t/1 conf, ordinary t+2/unconfirmed, X] with X in {locked, spent-by-unconfirmed, small leased, spender-seen-before-confirmed-receipt}",
+		n, smallCoinAmount, ab)
+}
+
+const requestRule = "coin i of a state receives (i+1)*1000000+100000 sat; statuses: unconfirmed, 1 conf, 3 confs, coinbase with maturity-1 confs, coinbase with exactly maturity confs, spent by an unconfirmed / by a confirmed foreign tx (receipt 3 confs), confirmed then disconnected, LockOutpoint, LeaseOutput 24h, LeaseOutput with expiry in the past (3 confs each), spent by an unconfirmed foreign tx that the wallet was told about BEFORE the credit existed: (i) spender, then the unconfirmed receipt (child seen before its parent), (ii) spender, then the block confirming the receipt (3 confs); both are ineligible for the reason spent-by-unconfirmed. " +
 	"requests per state: key scope in {nil, every scope of a coin of the state, one scope without coins} x account {0,1} x minconf ({0,1,2,6} if a coin has <=1 confirmations else {1,6}) x fee 1000 sat/kvB, and for each of these: " +
 	"(a) coin selection through CreateSimpleTx (signed), FundPsbt without inputs and SendOutputs (accepted broadcast) x amount {10000 sat, sum(eligible)-2000; CreateSimpleTx/Largest also sum(eligible) minus the first fee guess of txauthor for each change script size, where the input source is asked twice} x strategy {CoinSelectionLargest, a harness strategy for every preference order of the state's coins}, plus CreateSimpleTx dry-run with CoinSelectionLargest (only 10000 sat / Largest when the oracle's eligible set is empty: then every success is a violation whatever the strategy); " +
 	"(b) explicit selection of every non-empty subset of the state's coins through CreateSimpleTx(WithCustomSelectUtxos) (signed and dry-run), SendOutputsWithInput and FundPsbt with pre-set inputs x amount {10000, sum(selected)-2000} (10000 only when a selected coin is ineligible: the call must fail anyway); " +
 	"(c) the duplicated selection [c,c] of every eligible coin c through CreateSimpleTx, SendOutputsWithInput, FundPsbt; " +
 	"(d) for minconf<=1 and a non-empty eligible set: every ordering of {10000, 10000, sum(eligible)-2000} as three successive SendOutputs with accepted broadcasts (Quiesce after each) x strategy {CoinSelectionLargest, smallest-coin-first order}; the change outputs of earlier sends join the oracle's coin set. " +
 	"(e) for key scope nil, each account with a non-empty eligible set and the smallest minconf of the state: SendOutputs(10000, Largest), then a resynchronisation whose rebroadcast answers range over {accept, chain.ErrTxAlreadyInMempool}^n (n = number of transactions still unconfirmed: the state's unconfirmed receipts/spenders and the first send), then a second SendOutputs; 1-coin states: resynchronisation by Wallet.Rescan and by restart (stop, open, attach, unlock, LockOutpoint re-applied), second amount {10000, sum(eligible)-2000}; larger states: Wallet.Rescan and 10000 only. " +
+	"(f) built-in strategy family (states with a small coin of 400 sat, see bounds): key scope {nil, scope of the small coin} x account {0, 1} x minconf ({0,1} if a coin is unconfirmed else {1}) x fee rate {1000, 5000, 10000} sat/kvB (the small coin yields positively for every type / only as P2WKH, P2TR / for no type) x amount {10000 sat (one coin), largest positively yielding eligible coin + 50000 (at least two inputs), sum of the positively yielding eligible coins minus the fee of spending them all (all of them)} x entry point {CreateSimpleTx signed, FundPsbt, SendOutputs} x strategy {wallet.CoinSelectionLargest once, wallet.CoinSelectionRandom} (the two strategies the wallet exports). CoinSelectionRandom arranges with rand.Shuffle, which the harness cannot steer: each such request is REPEATED 40 times (2 times when fewer than two coins are eligible) - this part is repetition of a randomised implementation choice, not enumeration; the oracle is order-independent (inputs eligible, each once, signatures valid), the random_* counters report how many input orders were actually observed (results of CreateSimpleTx and SendOutputs; FundPsbt sorts the inputs of its packet, so its results say nothing about the arrangement drawn). " +
 	"States holding a coinbase coin additionally use minconf = confs and confs+1 of every coinbase coin and of the deepest non-coinbase coin. " +
 	"oracle: eligible iff credited to the requested account (and scope unless nil), unspent by any known tx, not locked, no active lease, confs>=minconf, coinbase confs>=maturity, all from the harness' record of the state; every input of every success must be eligible and distinct, explicit selections containing an ineligible coin must fail, inputs of explicit requests are selected ones, later sends never reuse inputs of earlier published, still unconfirmed ones (also across a resynchronisation), every input of a signed result passes txscript.Engine with StandardVerifyFlags, payable requests fail only for lack of funds. " +
 	"A published send is undone with TxStore.RemoveUnminedTx and the store compared with the base snapshot; the first witness of every signature is re-executed on a freshly built state before it is reported. " +
@@ -165,19 +246,31 @@ func Run(args []string) {
 	}
 	x := &explorer{run: run, st: newStats(), b: b, confirmed: map[string]bool{}}
 	var states [][]CoinSpec
+	var parts []int // for the states of the small-coin family: which part of the requests (see dustParts)
 	for _, s := range b.singles {
 		states = append(states, []CoinSpec{s})
 	}
 	states = append(states, b.pairs...)
 	states = append(states, b.triples...)
+	parts = make([]int, len(states))
+	// The requests of a state of the small-coin family are split into
+	// parts (each part builds the state anew) to balance the workers.
+	for _, d := range b.dust {
+		for p := 0; p < dustParts(d); p++ {
+			states = append(states, d)
+			parts = append(parts, p)
+		}
+	}
 	if sz := os.Getenv("C06_SIZES"); sz != "" { // development aid: only states of these sizes
 		var f [][]CoinSpec
-		for _, s := range states {
+		var fp []int
+		for i, s := range states {
 			if strings.Contains(sz, strconv.Itoa(len(s))) {
 				f = append(f, s)
+				fp = append(fp, parts[i])
 			}
 		}
-		states = f
+		states, parts = f, fp
 	}
 	complete := true
 	limit := -1
@@ -192,41 +285,82 @@ func Run(args []string) {
 			complete = false
 			break
 		}
-		x.exploreState(sp)
+		if hasSmall(sp) {
+			x.exploreDustState(sp, parts[k])
+		} else {
+			x.exploreState(sp)
+		}
 	}
 	st := x.st
 	for k, v := range st.nsByEntry {
 		st.msByEntry[k] = int(v / 1e6)
 	}
 	pprof.StopCPUProfile()
+	var orders []string
+	for o := range st.randomOrders {
+		orders = append(orders, o)
+	}
+	sort.Strings(orders)
+	ordersPerGroup := map[string]int{}
+	three, threeAll := 0, 0
+	for g, os := range st.randomGroups {
+		ordersPerGroup[fmt.Sprintf("%d-orders", len(os))]++
+		if st.randomGroupMax[g] == 3 {
+			only3 := true
+			for o := range os {
+				if strings.Count(o, ">") != 2 {
+					only3 = false
+				}
+			}
+			if only3 {
+				three++
+				if len(os) == 6 {
+					threeAll++
+				}
+			}
+		}
+	}
 	run.Finish(ev.Coverage{
-		"states":                        st.states,
-		"state_builds":                  builds,
-		"state_rebuilds_after_resync":   rebuilds,
-		"resynchronisations":            resyncs,
-		"transitions":                   st.requests,
-		"traces_validated_against_impl": st.requests,
-		"evaluations":                   st.inputsChecked + st.sigsVerified,
-		"inputs_checked":                st.inputsChecked,
-		"signatures_verified":           st.sigsVerified,
-		"distinct_nontrivial":           st.nontrivial,
-		"requests_failed":               st.failed,
-		"requests_skipped_no_amount":    st.skipped,
-		"explicit_requests":             st.explicit,
-		"explicit_ineligible_refused":   st.explicitRefused,
-		"send_sequences":                st.sequences,
-		"finalize_psbt_failed":          st.finalizeFailed,
-		"witness_confirmations":         st.confirmations,
-		"requests_per_entry_point":      st.byEntry,
-		"successes_per_entry_point":     st.byEntryOK,
-		"requests_per_coin_status":      st.byStatus,
-		"ineligibility_reasons":         st.byReason,
-		"signatures_per_address_type":   st.sigByType,
-		"failure_kinds":                 st.failKinds,
-		"wall_ms_per_entry_point":       st.msByEntry,
-		"states_per_size":               st.byStateSize,
-		"samples":                       st.samples,
-		"exhaustive":                    complete,
+		"random_strategy_requests":                          st.randomRequests,
+		"random_strategy_successes":                         st.randomOK,
+		"largest_strategy_requests_small_coin_family":       st.largestFamilyRequests,
+		"random_input_orders@set":                           orders,
+		"random_state_input_order_pairs":                    len(st.randomStateOrders),
+		"random_inputs_per_success":                         st.randomInputs,
+		"random_repeated_requests_with_success":             len(st.randomGroups),
+		"random_orders_seen_per_repeated_request":           ordersPerGroup,
+		"random_repeated_requests_always_3_inputs":          three,
+		"random_repeated_requests_always_3_inputs_6_orders": threeAll,
+		"random_requests_by_small_coin_yield":               st.smallYield,
+		"small_coin_position_in_store_order":                st.smallCoinStorePos,
+		"random_samples":                                    st.randomSamples,
+		"states":                                            st.states,
+		"state_builds":                                      builds,
+		"state_rebuilds_after_resync":                       rebuilds,
+		"resynchronisations":                                resyncs,
+		"transitions":                                       st.requests,
+		"traces_validated_against_impl":                     st.requests,
+		"evaluations":                                       st.inputsChecked + st.sigsVerified,
+		"inputs_checked":                                    st.inputsChecked,
+		"signatures_verified":                               st.sigsVerified,
+		"distinct_nontrivial":                               st.nontrivial,
+		"requests_failed":                                   st.failed,
+		"requests_skipped_no_amount":                        st.skipped,
+		"explicit_requests":                                 st.explicit,
+		"explicit_ineligible_refused":                       st.explicitRefused,
+		"send_sequences":                                    st.sequences,
+		"finalize_psbt_failed":                              st.finalizeFailed,
+		"witness_confirmations":                             st.confirmations,
+		"requests_per_entry_point":                          st.byEntry,
+		"successes_per_entry_point":                         st.byEntryOK,
+		"requests_per_coin_status":                          st.byStatus,
+		"ineligibility_reasons":                             st.byReason,
+		"signatures_per_address_type":                       st.sigByType,
+		"failure_kinds":                                     st.failKinds,
+		"wall_ms_per_entry_point":                           st.msByEntry,
+		"states_per_size":                                   st.byStateSize,
+		"samples":                                           st.samples,
+		"exhaustive":                                        complete,
 	})
 }
 
@@ -272,6 +406,7 @@ func subsets(k int) [][]int {
 // found.
 func (x *explorer) do(w *world, seq ...*Request) {
 	keep := len(seq) > 1
+	tainted := false
 	for i, r := range seq {
 		rc := *r
 		fs := w.exec(&rc, keep, x.st)
@@ -279,12 +414,13 @@ func (x *explorer) do(w *world, seq ...*Request) {
 			r.Realized = rc.got
 		}
 		for _, f := range fs {
+			tainted = true
 			x.report(w, seq[:i+1], f)
 		}
 	}
 	if keep {
 		x.st.sequences++
-		w.undo()
+		w.undoTainted(tainted)
 	}
 }
 
@@ -353,6 +489,26 @@ const maxAssignmentTries = 400
 // confirmFresh reports whether the signature shows up when the requests are
 // executed on a freshly built state.
 func confirmFresh(simID int, specs []CoinSpec, reqs []*Request, sig string) bool {
+	tries := 1
+	for _, r := range reqs {
+		if r.Builtin == "random" {
+			// the arrangement is drawn anew in every execution
+			tries = randomConfirmTries
+		}
+	}
+	for t := 0; t < tries; t++ {
+		if confirmOnce(simID, specs, reqs, sig) {
+			return true
+		}
+	}
+	return false
+}
+
+// randomConfirmTries bounds the re-executions of a witness that uses the
+// wallet's random strategy (the finding depends on the arrangement drawn).
+const randomConfirmTries = 200
+
+func confirmOnce(simID int, specs []CoinSpec, reqs []*Request, sig string) bool {
 	for try := 0; try < maxAssignmentTries; try++ {
 		out, matched := runFresh(simID, specs, reqs)
 		if !matched {
@@ -610,8 +766,19 @@ func replay(args []string) {
 	if len(args) > 1 {
 		times, _ = strconv.Atoi(args[1])
 	}
+	// A witness that uses the wallet's random strategy depends on the
+	// arrangement drawn by rand.Shuffle: repeat it until a finding shows (at
+	// most randomConfirmTries times).
+	if len(args) < 2 {
+		for _, r := range v.Replay.Requests {
+			if r.Builtin == "random" {
+				times = randomConfirmTries
+			}
+		}
+	}
+	stopAtFirst := times == randomConfirmTries
 	fails := 0
-	for n := 0; n < times; n++ {
+	for n := 0; n < times && !(stopAtFirst && fails > 0); n++ {
 		var out [][]finding
 		matched := false
 		for try := 0; try < maxAssignmentTries && !matched; try++ {
@@ -635,4 +802,110 @@ func replay(args []string) {
 	}
 	fmt.Println("replay: no oracle failure")
 	os.Exit(0)
+}
+
+// dustParts says into how many parts (key scope x minconf combinations) the
+// requests of a state of the small-coin family are split.
+func dustParts(specs []CoinSpec) int {
+	for _, sp := range specs {
+		if sp.Status == stUnconfirmed || sp.Status == stSpenderFirstUnconf || sp.Status == stRolledBack {
+			return 4
+		}
+	}
+	if len(specs) > 3 {
+		return 2
+	}
+	return 1
+}
+
+// exploreDustState runs part (f) of the rule on one state of the built-in
+// strategy family.
+func (x *explorer) exploreDustState(specs []CoinSpec, part int) {
+	w := buildWorld(0, specs)
+	defer func() { w.close() }() // w may be replaced by a rebuilt copy
+	nparts := dustParts(specs)
+	if part == 0 {
+		x.st.states++
+		x.st.byStateSize[fmt.Sprintf("%d-coin(small-coin family)", len(specs))]++
+	}
+	smallType := -1
+	for _, sp := range specs {
+		if sp.Small && smallType < 0 {
+			smallType = sp.Type
+		}
+	}
+	// Where the wallet's store lists the first small coin among its unspent
+	// outputs (measured, for the record only).
+	ord := w.storeOrder()
+	if part != 0 {
+		ord = nil
+	}
+	for i, op := range ord {
+		if cn := w.prev[op]; cn != nil && cn.Small {
+			pos := "middle"
+			switch {
+			case i == 0:
+				pos = "first"
+			case i == len(ord)-1:
+				pos = "last"
+			}
+			x.st.smallCoinStorePos[pos]++
+			break
+		}
+	}
+	minconfs := []int32{1}
+	for _, cn := range w.coins {
+		if cn.height < 0 {
+			minconfs = []int32{0, 1}
+		}
+	}
+	combo := 0
+	for _, sc := range []int{-1, smallType} {
+		for _, mc := range minconfs {
+			combo++
+			if (combo-1)%nparts != part {
+				continue
+			}
+			for acct := uint32(0); acct <= 1; acct++ {
+				nE := 0
+				var smallElig []*coin
+				for _, cn := range w.coins {
+					if w.reason(cn, sc, acct, mc) == "" {
+						nE++
+						if cn.Small {
+							smallElig = append(smallElig, cn)
+						}
+					}
+				}
+				for _, fr := range feeRatesFamily {
+					amounts := []string{"small", "two", "all"}
+					if nE == 0 {
+						amounts = []string{"small"}
+					}
+					for _, am := range amounts {
+						for _, e := range []string{"CreateSimpleTx", "FundPsbt", "SendOutputs"} {
+							r := Request{Entry: e, Scope: sc, Account: acct, MinConf: mc, FeeRate: fr, Amount: am}
+							x.do(w, &r)
+							reps := randomReps
+							if nE < 2 {
+								reps = 2
+							}
+							for rep := 1; rep <= reps; rep++ {
+								rr := r
+								rr.Builtin, rr.Rep = "random", rep
+								x.do(w, &rr)
+								for _, cn := range smallElig {
+									if yieldsPositively(cn, fr) {
+										x.st.smallYield[fmt.Sprintf("fee%d:eligible-small-coin-yields-positively", fr)]++
+									} else {
+										x.st.smallYield[fmt.Sprintf("fee%d:eligible-small-coin-yields-negatively", fr)]++
+									}
+								}
+							}
+						}
+					}
+				}
+			}
+		}
+	}
 }
